@@ -39,32 +39,29 @@ def r1_renderers_refuse(ctx) -> None:
     r.rule("C17.R1", "every renderer of string/regex values refuses placeholders: it goes through SigmaString.convert or a dominating placeholder check; str()/to_plain() of a Sigma string (which prints %name%) never feeds query text in conversion code")
     # SigmaRegularExpression.escape
     esc = prog.func(T + ".SigmaRegularExpression.escape")
-    uses = [n for n in walk_no_nested(esc.node) if isinstance(n, ast.Call) and call_name(n) in ("str",) and n.args and unparse(n.args[0]) == "self.regexp"]
-    uses += [n for n in walk_no_nested(esc.node) if isinstance(n, ast.Call) and call_name(n) in ("self.regexp.to_plain", "self.to_plain")]
-    if not uses:
-        raise AnalysisError(f"{esc.qual}: text rendering of self.regexp not found")
-    cfg = cfg_of(esc)
-    checks = []
-    for n in walk_no_nested(esc.node):
-        if isinstance(n, ast.Raise) and "SigmaPlaceholderError" in unparse(n):
-            checks.append(n)
-    ok_ = False
-    if checks:
-        # the raise must be guarded by a Placeholder test over self.regexp.s (loop) or contains_placeholder(), before the rendering
-        for c in checks:
-            gs = atomic_guards(guards_at(prog, esc, c))
-            loop = next((a for a in prog.ancestors(c) if isinstance(a, ast.For)), None)
-            if (("isinstance(part, Placeholder)", True) in gs and loop is not None and unparse(loop.iter) in ("self.regexp.s", "self.regexp.iter_parts()")) \
-                    or ("self.regexp.contains_placeholder()", True) in gs or ("self.contains_placeholder()", True) in gs:
-                guard_nodes = cfg.nodes_of(loop) if loop is not None else [x for x in cfg.node_of_expr(c, prog.parent)]
-                if all(cfg.must_pass(un, guard_nodes) for u in uses for un in cfg.node_of_expr(u, prog.parent)):
-                    ok_ = True
-    loc = f"{esc.module.relpath}:{uses[0].lineno}"
-    if ok_:
-        r.ok("C17.R1", esc.qual, "str(self.regexp) only after the placeholder check that raises SigmaPlaceholderError", loc)
+    # escape() interpreted (sa.tabulate, Proxy) on a stand-in expression with and without a placeholder part
+    import re as _re
+    from ..tabulate import Proxy, call_method, Raised
+    Str, Cased, PHc, spc, senv = _string_standin(ctx)
+
+    class SigmaPlaceholderError(Exception):
+        def __init__(self, *a, **k): super().__init__(*a)
+
+    env = dict(senv, SigmaPlaceholderError=SigmaPlaceholderError, re=_re, cast=lambda t, v: v)
+    RX = T + ".SigmaRegularExpression"
+    IK = {"behaviours": (SigmaPlaceholderError,), "max_steps": 8000}
+    outs = {}
+    for what, parts in (("placeholder in the middle", ["foo", PHc("p"), "bar"]), ("placeholder only", [PHc("p")]), ("no placeholder", ["foo.bar"])):
+        me = Proxy(prog, RX, env, {"regexp": Str(parts), "flags": set()}, interp_kwargs=IK)
+        try:
+            outs[what] = call_method(prog, RX, "escape", me, env, ("/",), interp_kwargs=IK)
+        except Raised as ex:
+            outs[what] = "refused" if "SigmaPlaceholderError" in str(ex) else f"<raises {ex}>"
+    if outs["placeholder in the middle"] == "refused" and outs["placeholder only"] == "refused" and isinstance(outs["no placeholder"], str) and not outs["no placeholder"].startswith("<"):
+        r.ok("C17.R1", esc.qual, "str(self.regexp) only after the placeholder check that raises SigmaPlaceholderError (interpreted)", esc.loc)
     else:
-        r.violation("C17.R1", esc.qual, short(prog.enclosing_stmt(uses[0]), 100),
-                    "the regular expression is rendered through its text form, which prints an unresolved placeholder as %name%; no dominating check raises SigmaPlaceholderError: the query silently contains the raw placeholder text", loc)
+        r.violation("C17.R1", esc.qual, f"regexp_str = str(self.regexp): {outs}",
+                    "the regular expression is rendered through its text form, which prints an unresolved placeholder as %name%; no dominating check raises SigmaPlaceholderError: the query silently contains the raw placeholder text", esc.loc)
     # conversion code: str()/to_plain()/f-string of SigmaString-typed expressions
     n_sites = 0
     for q, f in sorted(prog.funcs.items()):
@@ -120,29 +117,39 @@ def r2_raising_branch(ctx) -> None:
     r, prog = ctx.r, ctx.prog
     r.rule("C17.R2", "SigmaString.convert raises SigmaPlaceholderError naming the placeholder for every Placeholder part, on every branch; nothing between it and convert_rule swallows it")
     cv = prog.func(T + ".SigmaString.convert")
-    raises = [n for n in walk_no_nested(cv.node) if isinstance(n, ast.Raise) and "SigmaPlaceholderError" in unparse(n)]
-    ok_ = False
-    for n in raises:
-        gs = atomic_guards(guards_at(prog, cv, n))
-        if ("isinstance(part, Placeholder)", True) in gs and "part.name" in unparse(n):
-            loop = next((a for a in prog.ancestors(n) if isinstance(a, ast.For)), None)
-            if loop is not None and unparse(loop.iter) == "self.s":
-                ok_ = True
-    if ok_:
-        r.ok("C17.R2", cv.qual, "Placeholder part → SigmaPlaceholderError naming it (loop over all parts)", cv.loc)
+    # convert() interpreted (sa.tabulate) on stand-in strings that hold a placeholder at the start, in the middle, at the end,
+    # alone, next to wildcards — under configurations that take the fast paths of the string branch
+    from ..tabulate import Raised
+    Str, Cased, PHc, spc, senv = _string_standin(ctx)
+
+    class SigmaPlaceholderError(Exception):
+        def __init__(self, *a, **k): super().__init__(*a)
+
+    class SigmaValueError(Exception):
+        def __init__(self, *a, **k): super().__init__(*a)
+
+    senv.update({"SigmaPlaceholderError": SigmaPlaceholderError, "SigmaValueError": SigmaValueError})
+    bad = []
+    n = 0
+    for parts in ([PHc("user")], ["a", PHc("user")], [PHc("user"), "b"], ["a", PHc("user"), "b"], ["a", spc.WILDCARD_MULTI, PHc("user")], ["a", PHc("x"), "b", PHc("user")]):
+        for args in (("\\", "*", "?", "", ""), (None, "*", "?", "", ""), ("\\", "*", "?", "\"", "x"), ("\\", None, None, "", "")):
+            if args[1] is None and any(p_ is spc.WILDCARD_MULTI for p_ in parts):
+                continue  # a wildcard the target cannot express is refused first, as a value error
+            n += 1
+            try:
+                out = Str(parts).call("convert", *args)
+                bad.append(f"parts {parts}, convert{args}: gives {out!r}")
+            except Raised as ex:
+                first = next(p_.name for p_ in parts if isinstance(p_, PHc))
+                if "SigmaPlaceholderError" not in str(ex):
+                    bad.append(f"parts {parts}, convert{args}: raises {ex}")
+                elif getattr(ex, "exc", None) is not None and first not in str(ex.exc) and "user" not in str(ex.exc):
+                    bad.append(f"parts {parts}: the error does not name the placeholder ({ex.exc})")
+    if not bad:
+        r.ok("C17.R2", cv.qual, f"Placeholder part → SigmaPlaceholderError naming it ({n} interpreted cases: every position, fast-path configurations included)", cv.loc)
+        r.ok("C17.R2", cv.qual, "no result is returned for a value that holds a placeholder", cv.loc)
     else:
-        r.violation("C17.R2", cv.qual, "elif isinstance(part, Placeholder): raise SigmaPlaceholderError(...part.name...)", "the raising branch for Placeholder parts is missing or does not name the placeholder", cv.loc)
-    # no early return / fast path that skips the part loop
-    loops = [n for n in walk_no_nested(cv.node) if isinstance(n, ast.For) and unparse(n.iter) == "self.s"]
-    rets = [x for x in walk_no_nested(cv.node) if isinstance(x, ast.Return)]
-    if loops:
-        cfg = cfg_of(cv)
-        ln = [n.id for n in cfg.nodes if n.kind == "for" and n.ast is loops[0]]
-        bypass = [x for x in rets if not all(cfg.must_pass(nid, ln) for nid in cfg.nodes_of(x))]
-        if bypass:
-            r.violation("C17.R2", cv.qual, stmt_head(bypass[0]), "a result is returned without walking the parts (fast path): placeholders in such values are not refused", f"{cv.module.relpath}:{bypass[0].lineno}")
-        else:
-            r.ok("C17.R2", cv.qual, "every return follows the walk over all parts", cv.loc)
+        r.violation("C17.R2", cv.qual, f"elif isinstance(part, Placeholder): raise SigmaPlaceholderError(...part.name...) — {bad[0]}", f"{len(bad)} of {n} cases: the raising branch for Placeholder parts is missing, does not name the placeholder, or a result is returned without walking the parts (fast path): placeholders in such values are not refused", cv.loc)
     pe = "sigma.exceptions.SigmaPlaceholderError"
     if pe in prog.classes and "sigma.exceptions.SigmaError" in prog.mro(pe):
         r.ok("C17.R2", pe, "SigmaPlaceholderError is a SigmaError (collected/raised by convert_rule)")
@@ -156,21 +163,41 @@ def r2_raising_branch(ctx) -> None:
 def r3_hand_back(ctx) -> None:
     r, prog = ctx.r, ctx.prog
     r.rule("C17.R3", "partial handling hands placeholders back: the base callback yields the placeholder itself when it is not handled; include/exclude are exclusive; replace_placeholders builds the cross product with the first placeholder outermost and recurses over the suffix; placeholder insertion works on the parts")
+    # both interpreted (sa.tabulate, Proxy) over the include/exclude configurations
+    import types as _types
+    from ..tabulate import Proxy, call_method, Raised
     f = prog.func(PH + ".BasePlaceholderTransformation.placeholder_replacements_base")
-    ys = [(n, atomic_guards(guards_at(prog, f, n))) for n in walk_no_nested(f.node) if isinstance(n, (ast.Yield, ast.YieldFrom))]
-    handled = any(isinstance(n, ast.YieldFrom) and unparse(n.value) == "self.placeholder_replacements(p)" and ("self.is_handled_placeholder(p)", True) in gs for n, gs in ys)
-    back = any(isinstance(n, ast.Yield) and unparse(n.value) == "p" and ("self.is_handled_placeholder(p)", False) in gs for n, gs in ys)
-    if handled and back and len(ys) == 2:
-        r.ok("C17.R3", f.qual, "handled → replacements, otherwise → the placeholder itself", f.loc)
-    else:
-        r.violation("C17.R3", f.qual, "if self.is_handled_placeholder(p): yield from replacements else: yield p", "an unhandled placeholder is not handed back unchanged (it would be dropped or replaced)", f.loc)
     ih = prog.func(PH + ".PlaceholderIncludeExcludeMixin.is_handled_placeholder")
-    want = "self.include is None and self.exclude is None or (self.include is not None and p.name in self.include) or (self.exclude is not None and p.name not in self.exclude)"
-    got = unparse(ih.node.body[-1].value) if isinstance(ih.node.body[-1], ast.Return) else ""
-    if got == want:
-        r.ok("C17.R3", ih.qual, "no lists → all; include → members; exclude → non-members", ih.loc)
+    MX = PH + ".PlaceholderIncludeExcludeMixin"
+    BP = PH + ".BasePlaceholderTransformation"
+    bad_ih, bad_base = [], []
+    for include, exclude in ((None, None), (["a"], None), (None, ["a"]), ([], None), (None, []), (["a", "b"], None), (None, ["a", "b"])):
+        for name in ("a", "b", "c"):
+            p_ = _types.SimpleNamespace(name=name)
+            want = (include is None and exclude is None) or (include is not None and name in include) or (exclude is not None and name not in exclude)
+            try:
+                got = call_method(prog, MX, "is_handled_placeholder", Proxy(prog, MX, {}, {"include": include, "exclude": exclude}, interp_kwargs={"max_steps": 2000}), {}, p_, interp_kwargs={"max_steps": 2000})
+            except Raised as ex:
+                got = f"<raises {ex}>"
+            if got is not want:
+                bad_ih.append(f"include={include}, exclude={exclude}, placeholder {name!r}: {got!r} instead of {want}")
+            for handled in (True, False):
+                me = Proxy(prog, BP, {}, {"include": include, "exclude": exclude, "is_handled_placeholder": (lambda x, _h=handled: _h), "placeholder_replacements": (lambda x: iter(["r1", "r2"]))}, interp_kwargs={"max_steps": 2000})
+                try:
+                    out = list(call_method(prog, BP, "placeholder_replacements_base", me, {}, p_, interp_kwargs={"max_steps": 2000}))
+                except Raised as ex:
+                    out = f"<raises {ex}>"
+                okb = out == ["r1", "r2"] if handled else (isinstance(out, list) and len(out) == 1 and out[0] is p_)
+                if not okb:
+                    bad_base.append(f"placeholder {'handled' if handled else 'not handled'}: yields {out!r}")
+    if not bad_base:
+        r.ok("C17.R3", f.qual, "handled → replacements, otherwise → the placeholder itself (interpreted)", f.loc)
     else:
-        r.violation("C17.R3", ih.qual, got[:160], "include/exclude decision differs from: no lists → every placeholder, include → listed ones, exclude → all but listed", ih.loc)
+        r.violation("C17.R3", f.qual, f"if self.is_handled_placeholder(p): yield from replacements else: yield p — {bad_base[0]}", "an unhandled placeholder is not handed back unchanged (it would be dropped or replaced)", f.loc)
+    if not bad_ih:
+        r.ok("C17.R3", ih.qual, "no lists → all; include → members; exclude → non-members (interpreted: 7 configurations x 3 names)", ih.loc)
+    else:
+        r.violation("C17.R3", ih.qual, bad_ih[0], "include/exclude decision differs from: no lists → every placeholder, include → listed ones, exclude → all but listed", ih.loc)
     for cq in prog.subclasses(PH + ".PlaceholderIncludeExcludeMixin", strict=True):
         c = prog.classes[cq]
         pi = c.methods.get("__post_init__")
@@ -195,28 +222,48 @@ def r4_replacement_validation(ctx) -> None:
     r, prog = ctx.r, ctx.prog
     r.rule("C17.R4", "value-list replacement: a missing variable, an empty list or a non-string/number element is a SigmaValueError (never a silently vanishing value); values are wrapped as SigmaString(str(v)) in configuration order")
     f = prog.func(PH + ".ValueListPlaceholderTransformation.placeholder_replacements")
-    src = unparse(f.node)
     loc = f.loc
-    if "except KeyError" in src and "doesn't exists" in src and "self._pipeline.vars[p.name]" in src:
+    # interpreted (sa.tabulate, Proxy) over the variables a pipeline may hold
+    import types as _types
+    from ..tabulate import Proxy, call_method, Raised
+    VL = PH + ".ValueListPlaceholderTransformation"
+
+    class SigmaValueError(Exception):
+        def __init__(self, *a, **k): super().__init__(*a)
+
+    class SigmaString:
+        def __init__(self, t=None): self.t = t
+
+    env = {"SigmaValueError": SigmaValueError, "SigmaString": SigmaString}
+    IK = {"behaviours": (SigmaValueError,), "max_steps": 4000}
+    variables = {"list": ["a", 2, 3.5], "single": "x", "number": 7, "empty": [], "bad": ["a", None], "bad2": [["nested"]], "badsingle": {"k": 1}, "bool": [True]}
+    want = {"list": ["a", "2", "3.5"], "single": ["x"], "number": ["7"], "empty": "error", "bad": "error", "bad2": "error", "badsingle": "error", "missing": "error"}
+    outs = {}
+    for name in want:
+        me = Proxy(prog, VL, env, {"_pipeline": _types.SimpleNamespace(vars=dict(variables)), "include": None, "exclude": None}, interp_kwargs=IK)
+        try:
+            res = call_method(prog, VL, "placeholder_replacements", me, env, _types.SimpleNamespace(name=name), interp_kwargs=IK)
+            res = list(res)
+            outs[name] = [x.t for x in res] if all(isinstance(x, SigmaString) for x in res) else repr(res)
+        except Raised as ex:
+            outs[name] = "error" if "SigmaValueError" in str(ex) else f"<raises {ex}>"
+    if outs.get("missing") == "error":
         r.ok("C17.R4", f.qual, "unknown variable → SigmaValueError", loc)
     else:
-        r.violation("C17.R4", f.qual, "values = self._pipeline.vars[p.name] / except KeyError", "an unknown variable is not reported as SigmaValueError", loc)
-    tests = [n for n in walk_no_nested(f.node) if isinstance(n, ast.If) and isinstance(n.body[0], ast.Raise) and "isinstance(item, (str, int, float))" in unparse(n.test)]
-    if not tests:
-        r.violation("C17.R4", f.qual, "type check of the replacement values", "replacement values are not type checked", loc)
+        r.violation("C17.R4", f.qual, f"values = self._pipeline.vars[p.name] / except KeyError: unknown variable gives {outs.get('missing')!r}", "an unknown variable is not reported as SigmaValueError", loc)
+    tc = {k: outs[k] for k in ("empty", "bad", "bad2", "badsingle")}
+    if all(v == "error" for v in tc.values()):
+        r.ok("C17.R4", f.qual, "values that are not strings or numbers are refused — an empty list as well", loc)
+    elif tc["empty"] != "error":
+        r.violation("C17.R4", f.qual, f"type check of the replacement values: an empty list gives {tc['empty']!r}",
+                    "the check accepts an empty replacement list (all([]) is True): the cross product is then empty and the value silently disappears from the rule instead of failing", loc)
     else:
-        t = unparse(tests[0].test)
-        rejects_empty = ("!= {True}" in t and t.startswith("{isinstance")) or any(isinstance(n, ast.If) and unparse(n.test) in ("not values", "len(values) == 0") and isinstance(n.body[0], ast.Raise) for n in walk_no_nested(f.node))
-        if rejects_empty:
-            r.ok("C17.R4", f.qual, f"{t} — also rejects an empty list", f"{f.module.relpath}:{tests[0].lineno}")
-        else:
-            r.violation("C17.R4", f.qual, t,
-                        "the check accepts an empty replacement list (all([]) is True): the cross product is then empty and the value silently disappears from the rule instead of failing", f"{f.module.relpath}:{tests[0].lineno}")
-    rets = [x for x in walk_no_nested(f.node) if isinstance(x, ast.Return)]
-    if len(rets) == 1 and unparse(rets[0].value) == "[SigmaString(str(v)) for v in values]":
-        r.ok("C17.R4", f.qual, "[SigmaString(str(v)) for v in values] — configuration order", loc)
+        r.violation("C17.R4", f.qual, f"type check of the replacement values: {tc}", "replacement values are not type checked", loc)
+    rv = {k: outs[k] for k in ("list", "single", "number")}
+    if rv == {k: want[k] for k in rv}:
+        r.ok("C17.R4", f.qual, "[SigmaString(str(v)) for v in values] — configuration order, a single value counts as a list of one", loc)
     else:
-        r.violation("C17.R4", f.qual, stmt_head(rets[0]) if rets else "return", "replacements must be SigmaString(str(v)) for every configured value, in order", loc)
+        r.violation("C17.R4", f.qual, f"return: {rv}", f"replacements must be SigmaString(str(v)) for every configured value, in order (expected {dict((k, want[k]) for k in rv)})", loc)
     w = prog.func(PH + ".WildcardPlaceholderTransformation.placeholder_replacements")
     if unparse(w.node.body[-1]) == "return [SpecialChars.WILDCARD_MULTI]":
         r.ok("C17.R4", w.qual, "wildcard transformation → [WILDCARD_MULTI]", w.loc)
